@@ -48,6 +48,10 @@ def run_item(item):
             opts['--hunk-header-style'] = gen.TAGS['hh'] + ' ' + rng.choice(['file line-number', 'line-number', 'file'])
         opts.pop('--file-style', None) if opts.get('--file-style') in ('omit', 'raw') else None
         opts.setdefault('--file-style', gen.TAGS['file'])
+    xf = case['kind'] != 'blame' and rng.random() < 0.25
+    if xf:
+        # displayed names are rewritten; link targets must still be the real files
+        opts['--file-transformation'] = rng.choice(['s,^,TR~,', 's,^([^/]*)/,TR~$1/,', 's,^(.),TR~$1,'])
     file_fmt = rng.choice(FILE_FMTS)
     commit_fmt = rng.choice(COMMIT_FMTS)
     mode = 'pty' if rng.random() < 0.4 else 'pipe'
@@ -71,7 +75,7 @@ def run_item(item):
         c['executions'] = 2
         return c
     counters = {'links': 0, 'file_links': 0, 'line_links': 0, 'commit_links': 0, 'pairs': 1}
-    sets = {'kinds': [case['kind']], 'views': [case['view']], 'option_classes': case['meta']['classes'], 'mode': [mode],
+    sets = {'kinds': [case['kind']], 'views': [case['view']], 'option_classes': case['meta']['classes'] + (['file-transformation'] if xf else []), 'mode': [mode],
             'file_fmt': [file_fmt]}
 
     def bad(key, what, exp=None, obs=None):
@@ -105,6 +109,9 @@ def run_item(item):
             for uri, text in rw.links:
                 counters['links'] += 1
                 t = text.strip()
+                if xf and info.kind in ('file', 'hunk'):
+                    counters['transformed_names'] = counters.get('transformed_names', 0) + (1 if 'TR~' in t else 0)
+                    t = t.replace('TR~', '', 1)
                 if re.fullmatch(r'[0-9a-f]{7,40}', t) and re.search('[a-f]', t) and info.kind not in ('file', 'hunk', 'code'):
                     exp = commit_fmt.replace('{commit}', t)
                     if uri != exp:
